@@ -151,6 +151,21 @@ EchoStr(U, fd, am, i) ==
 -----------------------------------------------------------------------------
 (* execution *)
 
+\* What __schema and __type answer on the query root is Introspect.tla's subject (C17). Here only the SHAPE is prescribed:
+\* the response keys that are there after directives and (condition-less) fragments, an object wherever a selection is
+\* made, a list where the introspection schema has one. "any": some value; "opt": null or the shape; "each": null or a
+\* list of (null or the shape).
+IntroLists == {"types", "fields", "args", "interfaces", "possibleTypes", "enumValues", "inputFields", "directives", "locations"}
+RECURSIVE IntroShape(_, _)
+IntroShape(C, sels) ==
+  LET fs == Collect(C, "__Introspection", sels)
+      ks == Dedup([i \in DOMAIN fs |-> Key(fs[i])])
+  IN V("obj", [k \in Range(ks) |->
+        LET same == SelectSeq(fs, LAMBDA f : Key(f) = k)
+            sub == Flatten([i \in DOMAIN same |-> same[i].sels])
+        IN IF sub = <<>> THEN V("any", 0)
+           ELSE IF same[1].name \in IntroLists THEN V("each", IntroShape(C, sub)) ELSE V("opt", IntroShape(C, sub))])
+
 RECURSIVE ExecSels(_, _, _, _), EvalUnits(_, _, _, _, _), EvalField(_, _, _, _), Complete(_, _, _, _, _, _), CompleteList(_, _, _, _, _, _, _)
 
 \* selection set `sels` applied to data node `node`, whose response position is `path`
@@ -174,9 +189,11 @@ EvalField(C, node, f, path) ==
       p == path \o (IF "FragPathSegment" \in C.dv THEN [i \in 1..f.via |-> "f:"] ELSE <<>>) \o <<PathKey(Key(f))>>
   IN IF f.name = "__typename" THEN Res(StrV(tn), <<>>, <<>>)
      \* __schema and __type are fields of the query root type only (whatever that type is called): anywhere else they
-     \* are undefined fields (C10).  What they answer on the root is Introspect.tla's subject (C17), not generated here.
+     \* are undefined fields (C10).  What they answer on the root is Introspect.tla's subject (C17); IntroShape above.
      ELSE IF f.name \in {"__schema", "__type"} /\ tn # C.U.nodeType[C.U.roots["query"]]
      THEN Res(V("absent", 0), <<ErrRec(p, "undefined_field", f.name)>>, <<>>)
+     ELSE IF f.name = "__schema" THEN Res(IntroShape(C, f.sels), <<>>, <<>>)
+     ELSE IF f.name = "__type" THEN Res(V("opt", IntroShape(C, f.sels)), <<>>, <<>>)
      ELSE IF ~HasField(C.U, tn, f.name)
      THEN Res(V("absent", 0), <<ErrRec(p, "undefined_field", f.name)>>, <<>>)       \* C10: rejected, not resolved
      ELSE LET fd == FieldDef(C.U, tn, f.name)
